@@ -2,6 +2,7 @@ package baseorbitdb
 
 import (
 	"context"
+	"path"
 
 	logio "berty.tech/go-ipfs-log/io"
 	"berty.tech/go-orbit-db/utils"
@@ -25,6 +26,7 @@ var verifHarnesses = map[string]func(){
 	"VerifC14Injective":   VerifC14Injective,
 	"VerifC14Reopen":      VerifC14Reopen,
 	"VerifC14Escape":      VerifC14Escape,
+	"VerifC18Drop":        VerifC18Drop,
 }
 
 // ioReadManifest reads the manifest at the address root and returns the recorded name.
@@ -262,4 +264,100 @@ func VerifC14Escape() {
 	if rerr == nil {
 		vstub.Assert(node == name, "C14 the address root is the manifest recording this database's name (self-describing)")
 	}
+}
+
+// VerifC18Drop: an instance holds two databases; dropping one removes its local
+// data (cache directory) and nothing else: the sibling's cache, log and view are
+// untouched and the sibling stays usable; closing the instance (once or twice)
+// closes every store, and the sibling can be reopened from the same directory
+// with all its data.
+func VerifC18Drop() {
+	maxLen := vstub.Param("L", 1)
+	dag := vstub.NewMemDag()
+	blocks := vstub.NewBlocks(nil)
+	p1, e1 := newInstance("alice", "/data/alice", dag, blocks)
+	if p1 == nil {
+		return
+	}
+	ctx := context.Background()
+	no := false
+	n1 := "a" + c14Name("name1", maxLen)
+	n2 := "b" + c14Name("name2", maxLen)
+	s1, err := p1.Create(ctx, n1, "eventlog", &CreateDBOptions{IO: e1.IO, Replicate: &no})
+	if err != nil {
+		vstub.Cover("create-refused")
+		return
+	}
+	s2, err := p1.Create(ctx, n2, "eventlog", &CreateDBOptions{IO: e1.IO, Replicate: &no})
+	if err != nil {
+		vstub.Cover("create-refused")
+		return
+	}
+	if s1.Address().String() == s2.Address().String() {
+		return
+	}
+	vstub.Cover("created")
+	l1, l2 := s1.(iface.EventLogStore), s2.(iface.EventLogStore)
+	if _, err := l1.Add(ctx, []byte("one")); err != nil {
+		vstub.Fail("C18 Add failed")
+		return
+	}
+	op2, err := l2.Add(ctx, []byte("two"))
+	if err != nil {
+		vstub.Fail("C18 Add failed")
+		return
+	}
+	base := vstub.Dir("/data/alice")
+	dir1 := base + "/" + s1.Address().GetRoot().String() + "/" + s1.Address().GetPath()
+	dir2 := base + "/" + s2.Address().GetRoot().String() + "/" + s2.Address().GetPath()
+	_ = dir1
+	vstub.Assert(vstub.DiskHas(path.Clean(dir2)), "C18 harness: the sibling's cache directory holds data")
+
+	if err := s1.Drop(); err != nil {
+		vstub.Fail("C18 Drop returned an error")
+		return
+	}
+	vstub.Cover("dropped")
+	vstub.Assert(!vstub.DiskHas(path.Clean(dir1)), "C18 Drop removes the database's local data")
+	vstub.Assert(vstub.DiskHas(path.Clean(dir2)), "C18 Drop leaves the other database's local data alone")
+	vstub.Assert(s1.OpLog().Len() == 0, "C18 a dropped database shows an empty log")
+	vstub.Assert(s2.OpLog().Len() == 1, "C18 Drop leaves the other database's log alone")
+	ops, lerr := l2.List(ctx, nil)
+	vstub.Assert(lerr == nil, "C18 the other database is still usable after a Drop")
+	vstub.Assert(len(ops) == 1, "C18 Drop leaves the other database's view alone")
+	if _, err := l2.Add(ctx, []byte("three")); err != nil {
+		vstub.Fail("C18 the other database cannot be written after a Drop")
+	}
+
+	// closing the instance, once or twice
+	repeats := 1 + vstub.NdChoice("closes", 2)
+	for k := 0; k < repeats; k++ {
+		if err := p1.Close(); err != nil {
+			vstub.Fail("C18 instance Close returned an error")
+		}
+	}
+	vstub.WaitIdle()
+	vstub.Cover("instance-closed")
+	vstub.Assert(vstub.LiveThreads("berty.tech/go-orbit-db/stores") == 0, "C18 closing the instance leaves no store activity behind")
+	vstub.Assert(vstub.LiveThreads("berty.tech/go-orbit-db/baseorbitdb") == 0, "C18 closing the instance leaves no instance activity behind")
+
+	// a new instance on the same directory reopens the sibling with its data
+	p2, e2 := newInstance("alice", "/data/alice", dag, blocks)
+	if p2 == nil {
+		return
+	}
+	yes := true
+	r2, err := p2.Open(ctx, s2.Address().String(), &CreateDBOptions{IO: e2.IO, Replicate: &no, LocalOnly: &yes})
+	vstub.Assert(err == nil, "C18 after Close the directory is reopenable")
+	if err != nil {
+		return
+	}
+	if err := r2.Load(ctx, -1); err != nil {
+		vstub.Fail("C18 Load after reopen failed")
+		return
+	}
+	vstub.WaitIdle()
+	_, has := r2.OpLog().Get(op2.GetEntry().GetHash())
+	vstub.Assert(has, "C18 acknowledged data of the sibling is there after reopening")
+	vstub.Assert(r2.OpLog().Len() == 2, "C18 the reopened sibling holds all its acknowledged entries")
 }
